@@ -4,6 +4,7 @@ crash.
 -/
 import CoapLite.Lemmas.CodecInv
 import CoapLite.Lemmas.CodecFwd
+import CoapLite.Lemmas.CodecLow
 import CoapLite.Lemmas.Shape.Packet
 import CoapLite.Lemmas.Shape.Global
 
@@ -93,6 +94,32 @@ theorem reject_number_overflow (b0 b1 b2 b3 : UInt8) (tok : Bytes) (os : List (N
     (hover : (os.getLast?.map (·.1)).getD 0 + delta > 65535) :
     (dec (Framed b0 b1 b2 b3 tok os (hb :: tail))).isErr = true :=
   Codec.reject_number_overflow b0 b1 b2 b3 tok os hb tail delta r htk ht hos hff hd hover
+
+/-! ### "never panics, overflows or reads outside the buffer", with content
+
+`Codec.dec` pattern-matches on lists and computes in `Nat`: it cannot read outside anything or overflow,
+so `dec_never_panics` alone says little about those three risks. `CodecLow.decLow`
+(Model/CodecLow.lean) is a second, low-level transcription of `from_bytes`: an index cursor, `buf[i]`
+and `buf[a..b]` as partial operations that panic outside the buffer, every addition at the width of
+the Rust type that holds it (`u32` for the delta and the running option number, `usize` for cursor and
+lengths) panicking on overflow, the `while` loop with bounded fuel, guards in the order of the source. -/
+
+/-- the low-level decoder computes exactly what the high-level one does, for every buffer a Rust slice
+can be (its length is below 2^63) -/
+theorem low_level_decoder_refines (buf : Bytes) (hlen : buf.length < 2 ^ 63) :
+    CodecLow.decLow buf = dec buf :=
+  CodecLow.decLow_eq_dec buf hlen
+
+/-- … so for EVERY byte string none of its partial operations fails: no read or slice outside the
+buffer, no addition overflowing its type (both overflow-check modes therefore agree), and the loop
+terminates before its fuel runs out -/
+theorem decoder_stays_inside_the_buffer_and_never_overflows (buf : Bytes) (hlen : buf.length < 2 ^ 63) :
+    CodecLow.decLow buf ≠ .panic :=
+  CodecLow.decLow_never_panics buf hlen
+
+/-! non-vacuity: the partial operations do fail when misused (the model can express the failure) -/
+example : CodecLow.rd [1, 2, 3] 3 = .panic ∧ CodecLow.slice [1, 2, 3] 2 4 = .panic ∧
+    CodecLow.addW 32 4294967295 1 = .panic ∧ CodecLow.addW 32 65535 65804 = .ok 131339 := by decide
 
 /-! ### tie to the source: the state the model carries is the state the code carries
 
